@@ -366,8 +366,10 @@ def main(tier, seed, replay):
     # end to end (tracking on): MutateTickReceived fires exactly once, when every message of the tick was applied
     import corelib
     e2e = corelib.track_e2e(PID, seed, 100 if quick else 2000, verdict)
+    apa = None if quick else apalache_inductive(verdict, wd)
     coverage = {
         "end_to_end_tracking": e2e,
+        "apalache_inductive_invariant_unbounded_ticks": apa,
         "states": states,
         "transitions": generated,
         "traces_validated_against_impl": res["runs"],
@@ -402,6 +404,37 @@ def main(tier, seed, replay):
                          "confirmations",
                      ])
     return verdict.exit_code()
+
+
+def apalache_inductive(verdict, wd):
+    """Thorough tier: ConfirmHistory for arbitrary tick values - an inductive invariant checked symbolically by
+    Apalache (spec/apalache/TickConfirmInd.tla): base case, inductive step, invariant => queries agree with
+    the reference set; with the as-found shift (F6) the step must break.  A counterexample on the design is a
+    violation of the specification's claim; a timeout or a missing tool is only noted."""
+    import subprocess
+    src = os.path.join(L.VERIF, "spec", "apalache", "TickConfirmInd.tla")
+    runs = [("base", ["--init=Init", "--inv=IndInv", "--length=0"], 300, "NoError"),
+            ("step", ["--init=IndInit", "--inv=IndInv", "--length=1"], 2400, "NoError"),
+            ("queries", ["--init=IndInit", "--inv=QueriesAgree", "--length=0"], 900, "NoError"),
+            ("step_as_found_F6", ["--init=IndInit", "--next=NextF6", "--inv=IndInv", "--length=1"], 1200, "Error")]
+    out = {}
+    for name, args, tmo, want in runs:
+        t0 = time.time()
+        try:
+            r = subprocess.run(["apalache-mc", "check"] + args + [f"--out-dir={os.path.join(wd, 'apalache_' + name)}", src],
+                               stdout=subprocess.PIPE, stderr=subprocess.STDOUT, text=True, timeout=tmo)
+            m = re.search(r"The outcome is: (\w+)", r.stdout)
+            got = m.group(1) if m else "unknown"
+        except (subprocess.TimeoutExpired, FileNotFoundError) as e:
+            got = "not finished (" + type(e).__name__ + ")"
+            r = None
+        out[name] = {"outcome": got, "expected": want, "wall_s": round(time.time() - t0, 1)}
+        if got == "Error" and want == "NoError":
+            p = L.save_replay(PID, f"apalache-{name}.log", r.stdout[-8000:])
+            verdict.violation(p, f"Apalache: {name} of the inductive invariant of ConfirmHistory fails")
+        if got == "NoError" and want == "Error":
+            raise L.ToolError("vacuity: the as-found shift (F6) preserves the inductive invariant")
+    return out
 
 
 def shutil_rm(wd):
